@@ -2,8 +2,11 @@
 """Constants translator: re-reads /repo/src and regenerates coq/Consts.v.
 
 Every constant is located by a regex on the Rust source.  A constant that cannot be located is
-emitted as a comment `(* MISSING name *)` and reported on stderr and in the returned list; the Coq
-obligations that mention it then fail to compile, which the driver treats as a broken tie.
+reported on stderr (`could not locate name`): the driver marks the obligation `Consts.name` of every
+property that uses it as broken.  So that the rest of the development still compiles and the
+correspondence can go on looking for a failing input, the definition is then emitted with the value
+recorded for the pinned tree in tools/consts_pinned.json (written by `--update-pinned`), under a
+`(* MISSING name *)` comment.
 The file is rewritten only when its content changes so that `make` stays incremental.
 """
 import re, sys, os
@@ -133,18 +136,28 @@ def main():
     scalars["pin_ascii_offset"] = lit(pin, r"\*b\s*\+=\s*(\w+)\s*;")
     scalars["rc4_state_size"] = lit(rc4, r"state\s*:\s*\[u8;\s*(\w+)\]")
 
+    pinned_path = os.path.join(os.path.dirname(os.path.abspath(__file__)), "consts_pinned.json")
+    import json
+    if "--update-pinned" in sys.argv:
+        json.dump({"lists": lists, "scalars": scalars}, open(pinned_path, "w"), indent=1, sort_keys=True)
+    try:
+        pinned = json.load(open(pinned_path))
+    except OSError:
+        pinned = {"lists": {}, "scalars": {}}
     missing = []
     out = ["(* GENERATED by tools/extract_consts.py from the Rust sources under /repo/src. Do not edit. *)",
            "From Coq Require Import List NArith.", "Import ListNotations.", "Local Open Scope N_scope.", ""]
     for name, v in lists.items():
         if v is None:
-            missing.append(name); out.append("(* MISSING %s *)" % name)
-        else:
+            missing.append(name); out.append("(* MISSING %s: not located in the source on this run; pinned value, obligation reported broken *)" % name)
+            v = pinned["lists"].get(name)
+        if v is not None:
             out.append("Definition %s : list N := [%s]." % (name, "; ".join(str(x) for x in v)))
     for name, v in scalars.items():
         if v is None:
-            missing.append(name); out.append("(* MISSING %s *)" % name)
-        else:
+            missing.append(name); out.append("(* MISSING %s: not located in the source on this run; pinned value, obligation reported broken *)" % name)
+            v = pinned["scalars"].get(name)
+        if v is not None:
             out.append("Definition %s : N := %d." % (name, v))
     text = "\n".join(out) + "\n"
     old = None
